@@ -83,9 +83,7 @@ let () =
       let es = tar_entries (comps pre) false t in
       let um = n_of_int (int_of_string umask) in
       let hyp = if is_dir t && wf_treeb t && modes_okb t && benign_tree (comps pre) t then "B1" else "B0" in
-      let f0 = (match fs_init um with
-                | [(p, NDir m)] -> [(p, NDir (N.coq_lor m (n_of_int 1024)))]
-                | f -> f) in
+      let f0 = fs_init_sg um sgid in
       (match extract_list_partial true (comps pre) um (preserve = "1") f0 es with
        | (f, None) -> Printf.printf "%s %s OK %s\n" id hyp (show_fs (finish_dirs (comps pre) (preserve = "1") es f))
        | (_, Some (XAbsLink | XWriteThrough)) -> Printf.printf "%s UNJUDGED\n" id
